@@ -164,6 +164,39 @@ theorem C09_writes_do_not_show_through (t : Ty) (v : Val) (hw : t.WF) (hc : Conf
   · exact C10_other_parts_unchanged_partial m1 t v hw hc hs dst (by rw [hl1]; exact hbd) C hCd (by rw [hlC, hl1]) (src + lo) w b
       (by rw [hlC, hlen]; omega) (by omega)
 
+/-! ### copies of objects that hold references (node model `Xo/Model/RefGraph.lean`, component `rg`) -/
+
+/-- **references inside the copy resolve to valid objects in the copy's own buffer: the same referent when source and copy share a
+buffer.**  In every state satisfying the reference-graph invariant (every reachable state: `C08_ref_history`), copy-constructing a node
+from a node of the same buffer gives a node of the same class in fresh storage (disjoint from everything live, the source included);
+every scalar field has the source's value; every reference field denotes the SAME referent as the source's (same address, same class
+as the reader determines it) or is null like the source's - although the stored bytes differ, offsets being relative to the slot; and
+the invariant holds again, so all references of the copy are valid and stay valid under any later history -/
+theorem C09_copy_shares_referents (u : RG.Univ) (hu : RG.UWF u) (s : RG.St) (hi : RG.Inv u s) (ha o : Nat) (s1 : RG.St)
+    (h : RG.copyObj u s ha = (s1, some o)) (hcap : s1.b.a.capacity < 2 ^ 62) :
+    RG.Inv u s1 ∧ ∃ src c cl, RG.findObj s ha = some src ∧ src.cls = some c ∧ u[c]? = some cl ∧
+      s1.live = ⟨o, RG.csize cl, some c⟩ :: s.live ∧
+      (∀ e ∈ s.live, Alloc.Disjoint (o, RG.csize cl) (e.addr, e.size)) ∧
+      ∀ k fk, cl[k]? = some fk →
+        (fk = .scal → fromLE (readAt s1.b.mem (o + RG.foff cl k) 8) = fromLE (readAt s.b.mem (src.addr + RG.foff cl k) 8)) ∧
+        (fk ≠ .scal → deref s1.b.mem (o + RG.foff cl k) = deref s.b.mem (src.addr + RG.foff cl k) ∧
+          ∀ t, deref s.b.mem (src.addr + RG.foff cl k) = some t →
+            RG.refClass s1 fk (o + RG.foff cl k) = RG.refClass s fk (src.addr + RG.foff cl k)) :=
+  RG.copyObj_spec hu hi h hcap
+
+/-- non-vacuity: in the reachable state of the C08 example the node at 32 (a union reference to the node at 128, a null reference) is
+copied: the copy's references denote the same referents -/
+example : (RG.copyObj RGEx.exU RGEx.exS 32).2 = some 144 ∧
+    RG.readRef (RG.copyObj RGEx.exU RGEx.exS 32).1 (.uref [0, 1]) 144 = (some 128, 0) ∧
+    RG.readRef (RG.copyObj RGEx.exU RGEx.exS 32).1 (.ref 1) 168 = (none, 0) ∧
+    (RG.copyObj RGEx.exU RGEx.exS 32).1.b.a.capacity < 2 ^ 62 := by decide +kernel
+
+/-- non-vacuity of `C10_node_update`: in the same reachable state the node at 0 (class 0, scalars 5 and 6... overwritten to 44 by the
+write through a reference) is updated from the node at 128 (class 0, scalars 1 and 2) -/
+example : fromLE (readAt (RG.updObj RGEx.exU RGEx.exS 0 128).b.mem 0 8) = 1 ∧
+    fromLE (readAt (RG.updObj RGEx.exU RGEx.exS 0 128).b.mem 8 8) = 2 ∧
+    RG.findObj RGEx.exS 0 = some ⟨0, 16, some 0⟩ ∧ RG.findObj RGEx.exS 128 = some ⟨128, 16, some 0⟩ := by decide +kernel
+
 /-! non-vacuity: a dynamic struct copied from offset 3 of one memory to offset 40 of another -/
 example :
     readD (.struct [.scalar 2, .string]) (copyBytes
